@@ -2,6 +2,11 @@ NOTES = ("All checks: ./check <ID> --tier quick|thorough, VERIF_SEED respected, 
          "fix: commits in /repo are listed in known_findings.json as fixed entries.")
 NOT_APPLICABLE = {}
 CHECKS = {
+ "C13": {
+  "technique": "Hypothesis model-based testing of generated histories (edit / add / remove / unreference / session steps as one shrinkable value) against a reference map of the storage, each session a real pytest process; plus a Hypothesis arm on the storage lookup API",
+  "text": "Histories of 3-10 steps over a project (hash-length 1..64, three storage-dir settings, two files, colliding hash prefixes) are executed with real sessions (category subsets, report, review with answers, single-file sessions); after every session the storage listing and the references in the files are checked against five invariants (name = sha256 of content, persisted only with a written reference, no stale -new file, removal only by approved trim of an unreferenced file, a written reference resolves to one persisted file with the outsourced bytes). The API arm checks that 0 or >1 prefix matches raise HashError. Exploration.",
+  "note": "crashes of the process itself are the subject of C15; the model is a dict name -> bytes plus per-session reference sets",
+ },
  "C04": {
   "technique": "Hypothesis property-based testing over real pytest sessions with an independent flag-resolution model (from the docs), a differential against a plain-flags reference session, the category model for values, plus an exhaustive 16 x 5 flag/mode grid",
   "text": "Generated configurations (CLI, shortcuts incl. user-defined, env var, pyproject defaults, tty, CI variables, PYCHARM_HOSTED, xdist -n 2 / -n 0, review answers, xfail markers) x generated programs with an external site and an unreferenced persisted external; sessions that approve nothing must leave test files and persisted externals byte-identical, usage errors exit 4, approved sets must give exactly the files of a plain --inline-snapshot=<F> reference run and the values of the category model. The 80-cell subset x mode grid is enumerated exhaustively on a fixed six-site program. Exploration.",
